@@ -577,7 +577,11 @@ func genC14(d *Draw) Case {
 			}
 		}
 	}
-	if d.N(4) == 3 {
+	if d.N(5) == 4 {
+		// a signal and a message that carry the same name (two definitions of different kinds under one name)
+		renameRefs(c, map[string]string{"m1": "s1", "m2": "s2", "mX": "sX"})
+		c.Meta["sameName"] = 1
+	} else if d.N(4) == 3 {
 		// names that share what follows a colon (as identifiers with a modeller's prefix do)
 		ren := map[string]string{"s1": "ord:evt", "s2": "inv:evt", "sX": "pay:evt", "m1": "ord:msg", "m2": "inv:msg", "mX": "pay:msg", "e1": "ord:esc", "x1": "ord:err"}
 		renameRefs(c, ren)
@@ -718,6 +722,7 @@ func checkC14(cc Case, r *simrt.Result) *Outcome {
 	probe(o, "process-without-activities", c.Meta["bare"] == 1)
 	probe(o, "escalation-and-error-definitions-among-them", c.Meta["esc"] == 1)
 	probe(o, "references-that-share-what-follows-a-colon", c.Meta["colon"] == 1)
+	probe(o, "a-signal-and-a-message-of-the-same-name", c.Meta["sameName"] == 1)
 	probe(o, "event-nodes-inside-sub-process", c.Meta["nested"] > 0)
 	o.Sample = map[string]any{"program": c.Prog.Desc, "matches_per_definition": matches, "fires": fires}
 	return o
